@@ -104,6 +104,7 @@ extern real_t verif_nan_value, verif_inf_value;
 #endif
 #define DECL_VEC(T, name) struct name { T data[VERIF_INF]; unsigned long size; }
 #define VERIF_IDX(i, n, what) ({ unsigned long verif_i = (i); __CPROVER_assert(verif_thrown || verif_i < (n), what); verif_i; })
+#define ARR_IDX(i, n) VERIF_IDX(i, n, "std::array index in bounds")
 #define VEC_AT(v, i) ((v).data[VERIF_IDX(i, (v).size, "vector index in bounds")])
 #define VEC_AT_CHECKED(v, i) VEC_AT(v, i)   /* .at(): throws instead of UB; treated as obligation (stronger) */
 #define VEC_SIZE(v) ((c_ulong)(v).size)
